@@ -18,6 +18,7 @@ def run(ctx):
         "elements. (3) Freshness barrier: the slice branch of CircularRecord.__getitem__ deep-copies features, dbxrefs and "
         "letter annotations and the CircularRecord copy constructor deep-copies all four containers, so writes to "
         "fragments and to the product cannot reach an input."
+        ' Lambdas are closures read at call time, contextlib.ExitStack callbacks run at block exit, and after a loop over the inputs the loop variable is the last element: a clean-up registered per element must bind the element it is for.'
     )
     r.not_decided = ["equality of the restored index when an input's own reference list holds duplicates (data-dependent)"]
     ctx.guard(assembly_write_set, ctx, "C07")
